@@ -79,10 +79,10 @@ type loaderFacts struct {
 	fn          *ssa.Function
 	lsys        *ssa.Parameter
 	lnk         *ssa.Parameter
-	opener      *ssa.Call   // lsys.StorageReadOpener(...)
-	hasherCalls []*ssa.Call // lsys.HasherChooser(...) calls
+	opener      *ssa.Call          // lsys.StorageReadOpener(...)
+	hasherCalls []*ssa.Call        // lsys.HasherChooser(...) calls
 	compared    map[*ssa.Call]bool // hasher calls whose Sum feeds the comparison
-	sums        []*ssa.Call // H.Sum(...)
+	sums        []*ssa.Call        // H.Sum(...)
 	equalEdges  map[core.Edge]bool
 	trusted     map[core.Edge]bool
 	compareDesc []string
@@ -661,6 +661,20 @@ func runC06(c *core.Ctx) {
 			if len(commits) == 0 || len(enc) == 0 {
 				c.Undecided(key+"#commit", p.Pos(st.Pos()), "committer or encoder call not identified")
 			}
+			// the encoder writes straight into the storage writer (through io.MultiWriter only): a buffering layer
+			// defers write errors to a flush whose failure would not stop the commit
+			for _, e := range enc {
+				direct := false
+				w := core.Strip(e.Call.Args[1])
+				if mw, ok := w.(*ssa.Call); ok && core.IsPkgFunc(mw, "io", "MultiWriter") {
+					for v := range core.BackSlice(mw.Call.Args[0], core.SliceOpts{Stores: true, Stop: func(x ssa.Value) bool { _, isCall := x.(*ssa.Call); return isCall }}) {
+						if extractOf(v, opener, 0) {
+							direct = true
+						}
+					}
+				}
+				c.Check(direct, key+"#encoder-writes-storage-directly", p.Pos(e.Pos()), "the encoder's writer is io.MultiWriter(storage writer, hasher): every storage write error surfaces as the encoder's error", "the encoder does not write directly into the storage writer (a buffering/wrapping layer sits in between): a failed storage write can surface only at a later flush, after which the block is still committed")
+			}
 			for _, cm := range commits {
 				path, reached := core.Reach(st, nil, func(in ssa.Instruction) bool { return in == ssa.Instruction(cm) }, nilEdges, nil)
 				c.Check(!reached, key+"#commit", p.Pos(cm.Pos()), "committer is called only after the encoder returned nil", "the committer is reachable without the encoder having succeeded (a failed encode could commit a block)", p.Witness(path)...)
@@ -668,6 +682,28 @@ func runC06(c *core.Ctx) {
 		}
 	} else {
 		c.Undecided("linking.(*LinkSystem).Store", "-", "Store not found")
+	}
+
+	c.Rule("C06.trustedflag", "no library code stores into LinkSystem.TrustedStorage (only the user declares storage trusted): verification can never be switched off behind the user's back, e.g. on a copied LinkSystem handed to a NodeReifier", 1)
+	nTrusted := 0
+	for _, fn := range p.ModFns {
+		pk := core.FuncPkg(fn)
+		if pk == nil || !libraryPkg(core.RelPkg(pk.Path())) {
+			continue
+		}
+		core.Instrs(fn, func(in ssa.Instruction) {
+			st, ok := in.(*ssa.Store)
+			if !ok {
+				return
+			}
+			if fa, ok := st.Addr.(*ssa.FieldAddr); ok && core.FieldName(fa) == "LinkSystem.TrustedStorage" {
+				nTrusted++
+				c.Fail(core.FuncKey(fn)+"#sets-TrustedStorage", p.Pos(st.Pos()), "library code assigns LinkSystem.TrustedStorage: loads through that LinkSystem value skip hash verification although the user never declared the storage trusted")
+			}
+		})
+	}
+	if nTrusted == 0 {
+		c.OK("module#no-TrustedStorage-writer", "-", "no store to LinkSystem.TrustedStorage in library packages")
 	}
 
 	runC06Consume(c)
